@@ -43,6 +43,7 @@ Definition x_find_by_path_default_empty : bool := true.
 Definition x_all_yields_every_value : bool := true.
 
 Definition x_result_meta_none_iff_slot_none : bool := true.
+Definition x_result_sequence_id_before_early_return : bool := true.
 
 Definition x_task_defs_dict_keyed_by_definition : bool := true.
 Definition x_task_line_loop_over_search_defs : bool := true.
